@@ -25,4 +25,9 @@ GNextSim == IF Len(hist) = E THEN Flush ELSE GNext
 GSpecSim == GInit /\ [][GNextSim]_gvars
 
 Emit == Len(hist) # E \/ PrintT(<<"BEHAVIOUR", ToJson([cfg |-> cfg, steps |-> hist])>>)
+
+\* The block universe of this run (CID table: which entry every CID addresses; multihash table:
+\* length class, hash function and framing of every entry), printed once (identical lines are
+\* merged by the runner).  The harness builds its blocks and CIDs from THIS table.
+EmitUniverse == Len(hist) # 0 \/ PrintT(<<"BEHAVIOUR", ToJson([univ |-> [cids |-> CidTable, mhs |-> MhTable]])>>)
 =============================================================================
